@@ -75,6 +75,17 @@ pub fn start_server_from_dir(dir: &std::path::Path) -> Result<SocketAddr> {
     Ok(addr)
 }
 
+/// like `start_server_from_dir`, with the CA taken from the named file in `dir`
+pub fn start_server_with_ca(dir: &std::path::Path, ca_file: &str) -> Result<SocketAddr> {
+    let args = UserArgs::parse_from(["selium-server", "--bind-addr", "127.0.0.1:0", "--cert", &certs::p(dir, "localhost.der"), "--key", &certs::p(dir, "localhost.key.der"), "--ca", &certs::p(dir, ca_file)]);
+    let server = Server::try_from(args)?;
+    let addr = server.addr()?;
+    tokio::spawn(async move {
+        let _ = server.listen().await;
+    });
+    Ok(addr)
+}
+
 pub async fn default_client(addr: SocketAddr, set: &CertSet) -> Result<Client> {
     client(addr, &set.ca, &set.client, BackoffStrategy::constant().with_max_attempts(0)).await
 }
@@ -82,6 +93,12 @@ pub async fn default_client(addr: SocketAddr, set: &CertSet) -> Result<Client> {
 // ------------------------------------------------------------------ raw peer
 
 fn raw_client_config(ca: &[u8], id: Option<&Identity>) -> Result<ClientConfig> {
+    raw_client_config_w(ca, id, None)
+}
+
+/// `stream_window`: the flow-control credit this peer grants on each stream it receives on
+/// (0: the server can never write a byte to it)
+fn raw_client_config_w(ca: &[u8], id: Option<&Identity>, stream_window: Option<u32>) -> Result<ClientConfig> {
     let mut roots = RootCertStore::empty();
     roots.add(&Certificate(ca.to_vec()))?;
     let b = rustls::ClientConfig::builder().with_safe_defaults().with_root_certificates(roots);
@@ -93,6 +110,9 @@ fn raw_client_config(ca: &[u8], id: Option<&Identity>) -> Result<ClientConfig> {
     let mut cfg = ClientConfig::new(Arc::new(crypto));
     let mut t = TransportConfig::default();
     t.keep_alive_interval(Some(Duration::from_secs(2)));
+    if let Some(w) = stream_window {
+        t.stream_receive_window(w.into());
+    }
     cfg.transport_config(Arc::new(t));
     Ok(cfg)
 }
@@ -107,6 +127,14 @@ impl RawConn {
     pub async fn connect(addr: SocketAddr, ca: &[u8], id: Option<&Identity>) -> Result<Self> {
         let mut endpoint = Endpoint::client("127.0.0.1:0".parse().unwrap())?;
         endpoint.set_default_client_config(raw_client_config(ca, id)?);
+        let conn = tokio::time::timeout(LONG, endpoint.connect(addr, "localhost")?).await.map_err(|_| anyhow!("connect timed out"))??;
+        Ok(RawConn { conn, _endpoint: endpoint })
+    }
+
+    /// a peer that grants `stream_window` bytes of credit on every stream it reads from
+    pub async fn connect_with_window(addr: SocketAddr, ca: &[u8], id: Option<&Identity>, stream_window: u32) -> Result<Self> {
+        let mut endpoint = Endpoint::client("127.0.0.1:0".parse().unwrap())?;
+        endpoint.set_default_client_config(raw_client_config_w(ca, id, Some(stream_window))?);
         let conn = tokio::time::timeout(LONG, endpoint.connect(addr, "localhost")?).await.map_err(|_| anyhow!("connect timed out"))??;
         Ok(RawConn { conn, _endpoint: endpoint })
     }
@@ -157,6 +185,7 @@ pub struct FakeServer {
     pub incoming: mpsc::UnboundedReceiver<Incoming>,
     conns: Arc<Mutex<Vec<Connection>>>,
     endpoint: Endpoint,
+    stale_below: std::sync::atomic::AtomicUsize,
 }
 
 impl FakeServer {
@@ -216,7 +245,7 @@ impl FakeServer {
                 });
             }
         });
-        Ok(FakeServer { addr, incoming: rx, conns, endpoint })
+        Ok(FakeServer { addr, incoming: rx, conns, endpoint, stale_below: std::sync::atomic::AtomicUsize::new(0) })
     }
 
     /// Close every connection accepted so far; clients see a connection loss
@@ -226,6 +255,12 @@ impl FakeServer {
         for c in g.iter() {
             c.close(0u32.into(), b"cut");
         }
+        self.stale_below.store(g.len(), std::sync::atomic::Ordering::SeqCst);
+    }
+
+    /// streams that arrived over a connection which has been cut since are dead
+    pub fn is_stale(&self, inc: &Incoming) -> bool {
+        inc.conn_index < self.stale_below.load(std::sync::atomic::Ordering::SeqCst)
     }
 
     pub async fn next_incoming(&mut self, within: Duration) -> Option<Incoming> {
